@@ -738,6 +738,7 @@ impl Ctx {
                 let nm = op["name"].as_str().ok_or("name")?.to_string();
                 ev.insert("m".into(), json!(format!("{d}/{nm}")));
                 ev.insert("dg".into(), decode::digest(&self.dir(&d), &nm));
+                if let Some(a) = op.get("always") { ev.insert("always".into(), a.clone()); }
                 ev.insert("outcome".into(), json!("ok"));
             }
             "copy_dir" => {
@@ -839,6 +840,7 @@ impl Ctx {
                 let nm = op["name"].as_str().ok_or("name")?.to_string();
                 ev.insert("m".into(), json!(format!("{d}/{nm}")));
                 ev.insert("dg".into(), decode::digest(&self.dir(&d), &nm));
+                if let Some(a) = op.get("always") { ev.insert("always".into(), a.clone()); }
                 ev.insert("outcome".into(), json!("ok"));
             }
             "mutate_file" => {
